@@ -11,8 +11,20 @@
 from itertools import chain
 
 from ufl.argument import Coargument
+from ufl.core.expr import Expr
 from ufl.core.ufl_type import ufl_type
 from ufl.form import BaseForm, FormSum, ZeroBaseForm
+
+
+
+def _conj(weight):
+    """Complex conjugate of the weight of a FormSum component (a number or a scalar expression)."""
+    if isinstance(weight, Expr):
+        from ufl.algebra import Conj
+
+        return Conj(weight)
+    return weight.conjugate()
+
 
 # --- The Adjoint class represents the adjoint of a numerical object that
 #     needs to be computed at assembly time ---
@@ -48,8 +60,10 @@ class Adjoint(BaseForm):
         if isinstance(form, Adjoint):
             return form._form
         elif isinstance(form, FormSum):
-            # Adjoint distributes over sums
-            return FormSum(*((Adjoint(c), w) for c, w in zip(form.components(), form.weights())))
+            # Adjoint distributes over sums and is conjugate-linear in the weights
+            return FormSum(
+                *((Adjoint(c), _conj(w)) for c, w in zip(form.components(), form.weights()))
+            )
         elif isinstance(form, Coargument):
             # The adjoint of a coargument `c: V* -> V*` is the identity
             # matrix mapping from V to V (i.e. V x V* -> R).
